@@ -759,14 +759,13 @@ def run(ck):
                             envs.append(None)
                             errs.append("%s(%s)" % (type(e).__name__, e))
                     if errs[0] is not None or errs[1] is not None:
-                        if errs[0] != errs[1]:
-                            ck.failing_input("C03:object-vs-dict-request",
-                                             "op%d: the filled factory object gives %s, the equivalent dict gives %s"
-                                             % (k, errs[0] or "a request", errs[1] or "a request"),
-                                             {"wsdl": wsdl.decode("utf-8"), "operation": "op%d" % k,
-                                              "object_args": repr(okw)[:3000], "dict_args": repr(dkw)[:3000]})
-                        else:
-                            ck.count("object-vs-dict-both-raise")
+                        # the arguments are valid by construction: a request must come out of both
+                        ck.failing_input("C03:object-vs-dict-request",
+                                         "op%d: the filled factory object gives %s, the equivalent dict gives %s"
+                                         % (k, errs[0] or "a request", errs[1] or "a request"),
+                                         {"wsdl": wsdl.decode("utf-8"), "operation": "op%d" % k,
+                                          "object_args": repr(okw)[:3000], "dict_args": repr(dkw)[:3000]})
+                        ck.count("object-vs-dict-raised")
                         continue
                     e1, e2 = envs
                     b1 = c01.envelope_body(e1)[1].elements()
@@ -784,7 +783,8 @@ def run(ck):
                         ck.sample({"operation": "op%d" % k, "object_args": repr(okw)[:300],
                                    "envelope": e1.decode("utf-8", "replace")[:600]})
                 except Exception as e:  # noqa
-                    ck.count("object-vs-dict-call-failed")
+                    # creating / filling the argument objects failed (create() itself is judged above)
+                    ck.count("object-vs-dict-setup-failed")
                     ck.extra.setdefault("object_vs_dict_failures", []).append(repr(e)[:200])
 
     # ------------------------------------------------------------------ judge
